@@ -90,10 +90,11 @@ def fermion_hamiltonian(h, eri, site_of_orb):
 
 def gen_integrals(rnd, norb):
     h = np.zeros((norb, norb))
+    unit = rnd.random() < 0.2      # equal (unit) integrals: model Hamiltonians with exact cancellations
     for p in range(norb):
         for q in range(p, norb):
             if rnd.random() < 0.8:
-                h[p, q] = h[q, p] = round(rnd.uniform(-1, 1), 4)
+                h[p, q] = h[q, p] = round(rnd.uniform(-1, 1), 4) if not unit else rnd.choice([1.0, -1.0])
     eri = np.zeros((norb,) * 4)
     dens = rnd.choice([1.0, 0.6, 0.3])
     pattern = rnd.choice(["any", "any", "any", "coulomb_exchange"])     # (pp|qq) and (pq|pq) only: PPP / Hubbard-like sparsity
@@ -101,7 +102,7 @@ def gen_integrals(rnd, norb):
         if pattern == "coulomb_exchange" and not ((p == q and r == s) or ((p, q) == (r, s))):
             continue
         if p <= q and r <= s and (p, q) <= (r, s) and rnd.random() < dens:
-            v = round(rnd.uniform(-0.5, 0.5), 4)
+            v = round(rnd.uniform(-0.5, 0.5), 4) if not unit else rnd.choice([1.0, 1.0, -1.0])
             for a_, b_, c_, d_ in ((p, q, r, s), (q, p, r, s), (p, q, s, r), (q, p, s, r), (r, s, p, q), (s, r, p, q), (r, s, q, p), (s, r, q, p)):
                 eri[a_, b_, c_, d_] = v
     return h.tolist(), eri.tolist()
